@@ -61,7 +61,7 @@ type Term struct {
 	A    []*Term
 	Name string
 	ID   uint64
-	vars []uint64 // sorted ids of free variables (lazily computed)
+	vars atomic.Pointer[[]uint64] // sorted ids of free variables (lazily computed)
 	size int32
 }
 
@@ -245,6 +245,18 @@ func Bin(op Op, a, b *Term) *Term {
 		}
 		if Same(a, b) {
 			return BV(0, w)
+		}
+		// (x + c) - x = c ; (x + c1) - (x + c2) = c1 - c2
+		if a.Op == OpAdd {
+			if Same(a.A[0], b) {
+				return a.A[1]
+			}
+			if Same(a.A[1], b) {
+				return a.A[0]
+			}
+			if b.Op == OpAdd && Same(a.A[0], b.A[0]) {
+				return Bin(OpSub, a.A[1], b.A[1])
+			}
 		}
 	case OpMul:
 		if a.IsConst() && a.K == 1 {
@@ -603,14 +615,15 @@ func BAndN(ts ...*Term) *Term {
 
 // Vars returns the sorted ids of the free variables of t.
 func (t *Term) Vars() []uint64 {
-	if t.vars != nil {
-		return t.vars
+	if p := t.vars.Load(); p != nil {
+		return *p
 	}
+	var res []uint64
 	switch t.Op {
 	case OpConst:
-		t.vars = []uint64{}
+		res = []uint64{}
 	case OpVar:
-		t.vars = []uint64{t.ID}
+		res = []uint64{t.ID}
 	default:
 		set := map[uint64]struct{}{}
 		for _, a := range t.A {
@@ -623,9 +636,10 @@ func (t *Term) Vars() []uint64 {
 			out = append(out, v)
 		}
 		sort.Slice(out, func(i, j int) bool { return out[i] < out[j] })
-		t.vars = out
+		res = out
 	}
-	return t.vars
+	t.vars.Store(&res)
+	return res
 }
 
 // CollectVars appends the variable terms in t to m (by name).
